@@ -151,3 +151,140 @@ def base_exec(rng, n_files=4):
         "heap_shift": 0,
         "faults": [],
     }
+
+
+# ------------------------------------------------------------------------------------------
+# general experiment generator shared by C03 / C04 / C07 / C09 / C15
+
+TXT_LINES = ["see http://example.com/a\n", "plain line\n", "two http://a.invalid and http://b.invalid\n", "https://ok.invalid\n",
+             "\n", "café http://c.invalid\n", "tab\there\n"]
+XML_DOCS = [
+    '<?xml version="1.0" encoding="utf-8"?>\n<config>\n  <session name="a"/>\n  <other>text &amp; more</other>\n</config>\n',
+    '<config>\n  <session secure="false">x</session>\n  <!-- c -->\n</config>\n',
+    '<root>\n  <config>\n    <session/>\n  </config>\n  <config/>\n</root>\n',
+    '<root><item/></root>\n',
+]
+MANIFEST_FILES = ["requirements.txt", "pyproject.toml", "setup.py", "setup.cfg"]
+
+
+def gen_txt_file(rng, used, dirs=("", "docs", "pkg")):
+    n = rng.randint(1, 8)
+    lines = [rng.choice(TXT_LINES) for _ in range(n)]
+    text = "".join(lines)
+    if rng.random() < 0.2:
+        text = text.rstrip("\n")
+    if rng.random() < 0.2:
+        text = text.replace("\n", "\r\n")
+    return {"path": rand_path(rng, used, list(dirs), ext=rng.choice([".txt", ".html"])), "raw": {"t": text}}
+
+
+def gen_xml_file(rng, used, dirs=("", "conf", "pkg")):
+    return {"path": rand_path(rng, used, list(dirs), ext=".xml"), "raw": {"t": rng.choice(XML_DOCS)}}
+
+
+def sonar_findings_for_txt(path, text, rng, p=0.7):
+    out = []
+    for i, line in enumerate(text.replace("\r\n", "\n").split("\n")):
+        if "http://" in line and rng.random() < p:
+            out.append({"rule": "verif:S9999", "status": "OPEN", "component": path, "message": "plain http",
+                        "textRange": {"startLine": i + 1, "endLine": i + 1, "startOffset": 0, "endOffset": max(1, len(line))}})
+    return out
+
+
+def gen_manifests(rng, k=None, tags_ok=None):
+    from . import world as W
+
+    ms = W.manifests()
+    k = rng.choice([0, 1, 1, 2]) if k is None else k
+    out = []
+    names = set()
+    for _ in range(k):
+        m = rng.choice(ms)
+        if m["file"] in names:
+            continue
+        names.add(m["file"])
+        d = rng.choice(["", "", "sub"]) if m["file"] != "setup.py" else ""
+        out.append({"path": (d + "/" if d else "") + m["file"], "manifest": m["idx"]})
+    return out
+
+
+def gen_general(rng, kinds=("ff", "ff", "ff-dep", "sast", "plugin", "mixed"), max_codemods=4, rich=True, exotic=False):
+    from . import world as W
+
+    kind = rng.choice(list(kinds))
+    used = set()
+    files = []
+    include = []
+    extra_findings = {}
+    plugins = False
+    path_include = None
+    if kind in ("ff", "ff-dep", "mixed"):
+        pool = [c for c in ids(origin="pixee") if any(is_plain_snippet(r) for r in W.triggering(c))]
+        if kind == "ff-dep":
+            cids = [rng.choice(sorted(W.DEP_CODEMODS))] + rng.sample(pool, rng.randint(0, 2))
+        else:
+            cids = rng.sample(pool, rng.randint(1, max_codemods))
+        for _ in range(rng.randint(1, 6)):
+            f = gen_py_file(rng, used, cids, n_snip=(1, 3), rich=rich, exotic=exotic and rng.random() < 0.5)
+            if f:
+                files.append(f)
+        if rng.random() < 0.4:
+            files.append(gen_neutral(rng, used))
+        include = list(dict.fromkeys(cids))
+        rng.shuffle(include)
+        if kind == "ff-dep" or rng.random() < 0.3:
+            files += gen_manifests(rng, k=rng.choice([1, 1, 2, 3]) if kind == "ff-dep" else None)
+    if kind == "sast":
+        origin = rng.choice(["sonar", "sonar", "semgrep", "defectdojo"])
+        pool = [c for c in ids(origin=origin) if any(is_plain_snippet(r) for r in W.triggering(c))]
+        cids = rng.sample(pool, min(len(pool), rng.randint(1, max_codemods)))
+        for c in cids:
+            for _ in range(rng.randint(1, 2)):
+                f = gen_sast_file(rng, used, c, rich=rich)
+                if f:
+                    files.append(f)
+        include = cids
+        if rng.random() < 0.3:
+            files += gen_manifests(rng)
+    if kind in ("plugin", "mixed"):
+        plugins = True
+        pc = rng.sample(["verif:python/regex-http", "verif:python/xml-attr", "verif:python/xml-newelem", "verif:python/sast-regex-http"],
+                        rng.randint(1, 3))
+        for c in pc:
+            for _ in range(rng.randint(1, 3)):
+                if "xml" in c:
+                    files.append(gen_xml_file(rng, used))
+                else:
+                    f = gen_txt_file(rng, used)
+                    files.append(f)
+                    if c == "verif:python/sast-regex-http":
+                        extra_findings.setdefault("sonar:issues", []).extend(
+                            {"file": f["path"], "finding": x} for x in sonar_findings_for_txt(f["path"], f["raw"]["t"], rng))
+        include = include + pc
+        rng.shuffle(include)
+        path_include = "*.py,**/*.py,*.txt,**/*.txt,*.html,**/*.html,*.xml,**/*.xml"
+    return {"kind": kind, "world_spec": {"files": files}, "include": include, "plugins": plugins,
+            "path_include": path_include, "extra_findings": extra_findings}
+
+
+def general_argv(exp, meta, dry_run=False, include=None, workers=None):
+    """-> (argv, results) for a general experiment"""
+    import copy as _copy
+
+    from . import world as W
+
+    meta2 = _copy.deepcopy(meta)
+    for kind, lst in (exp.get("extra_findings") or {}).items():
+        meta2["findings"].setdefault(kind, []).extend(lst)
+    results, ropts = W.default_delivery(meta2)
+    argv = ["<T>", "--output", "<O>/report.codetf"]
+    inc = exp["include"] if include is None else include
+    argv += ["--codemod-include", ",".join(inc)]
+    argv += ropts
+    if exp.get("path_include"):
+        argv += ["--path-include", exp["path_include"]]
+    if workers:
+        argv += ["--max-workers", str(workers)]
+    if dry_run:
+        argv += ["--dry-run"]
+    return argv, results
